@@ -38,8 +38,10 @@ def run(ctx):
     args = {"groups": ["SCHED"], "workers": 1, "max_runs": 2, "seed": ctx.seed, "out": ctx.path("seq.ndjson"), "scenarios": fam, "force_sequential": True}
     r = ctx.vh("sched", args, timeout=3000)
     se.report(ctx, r, args, "C12", also=("C01", "C06"))
-    ctx.rule = ("cases = call shapes x {CREATE, CREATE2} x guard on/off x {Prague, Cancun} enumerated by TLC from rules/Delegated.tla (48), each realised "
-                "with real bytecode and a delegation designator; where the rule says 'as stock' the block must equal stock revm, where it says halt the "
-                "rule's observables (halt kind, inner call flag, nonce of the delegated account, validity of its own later transaction) are checked")
-    ctx.assumptions += ["'everything else is bit-identical to stock revm' is decided for the enumerated shapes only (top-level, nested, delegatecall from an ordinary contract, ordinary create, static, create transaction)",
-                        "Osaka / Amsterdam are not separately exercised in the quick tier"]
+    ctx.rule = ("cases = call paths (direct, or one CALL / DELEGATECALL / CALLCODE / STATICCALL hop between delegated EOAs and ordinary contracts, or a create "
+                "transaction) x {CREATE, CREATE2} x guard on/off x {Cancun, Prague, Osaka, Amsterdam}, enumerated by TLC from rules/Delegated.tla "
+                f"({len(cases['create'])} cases, one block each, real bytecode and designators). The rule decides per case whether the creating frame's CONTEXT account "
+                "carries a designator; where it says 'halts' the run must equal stock revm on the block whose creator code is INVALID (same frame halt, all gas "
+                "consumed) and the delegated account's own later transaction must be valid; everywhere else the run must equal stock revm on the block itself")
+    ctx.assumptions += ["call paths of at most one hop; deeper nesting composes the same context rule",
+                        "the halt reason itself (NotActivated) is not compared with the substituted block (InvalidFEOpcode); kind, gas, logs, output and state are"]
